@@ -99,7 +99,7 @@ def payload(draw, sels):
 @st.composite
 def replace_case(draw, repl_kinds=None, fractions=True, with_hints=True, max_copies=3, pattern_classes=None,
                  cell_classes=None, tightness=(1.02, 1.5, 3.0), decoys=True, noise_levels=(0.0, 1 / 64.0, 1 / 32.0),
-                 atols=None, max_atoms=5, with_payload=True):
+                 atols=None, max_atoms=5, with_payload=True, dressed=False):
     pat = draw(gen_geom.pattern(classes=pattern_classes, max_atoms=max_atoms, alphabet=draw(st.sampled_from(gen_geom.ALPHABETS))))
     rp = draw(derived_replacement(pat, kinds=repl_kinds))
     both = list(pat["pos"]) + list(rp["pos"])
@@ -128,6 +128,11 @@ def replace_case(draw, repl_kinds=None, fractions=True, with_hints=True, max_cop
     case["replace_all"] = draw(st.booleans())
     if with_payload:
         case["payload"] = draw(payload(case["sels"]))
+    if dressed and draw(hperm.integers(0, 2)) == 0:
+        # patterns that carry their own type labels (different in the two patterns) and / or extra per-atom columns
+        case["pdress"] = {"slab": draw(st.sampled_from([None, "_s", "_R", "1"])),
+                          "rlab": draw(st.sampled_from([None, "_r", "_3", "1"])),
+                          "sextra": draw(hperm.integers(0, 3)) == 0, "rextra": draw(st.booleans())}
     case["rcharges"] = [round(R_TAG0 + 0.01 * j, 6) for j in range(len(rp["pos"]))]
     case["rgroups"] = [draw(hperm.integers(4, 6)) for _ in range(len(rp["pos"]))]
     return case
@@ -145,10 +150,26 @@ def build_structure(case):
                      cell=np.array(case["cell"], float))
 
 
+def _dressed(els, pos, suffix, extra, **kw):
+    """pattern with explicit types: one type per element, label = element + suffix (as a pattern cut out of a typed
+    LAMMPS file or a CIF with site labels), optionally with extra per-atom columns (as read from a CIF)"""
+    from mofun import Atoms
+    ue = list(dict.fromkeys(els))
+    if extra:
+        kw["extra_atom_labels"] = ["_atom_site_occupancy", "_atom_site_note"]
+        kw["extra_atom_fields"] = [["0.5", "p%d" % i] for i in range(len(els))]
+    with silenced():
+        return Atoms(atom_types=[ue.index(e) for e in els], atom_type_elements=ue,
+                     atom_type_labels=[e + suffix for e in ue], positions=pos, **kw)
+
+
 def build_search(case, motion=None):
     pos = np.array(case["ppos"], float)
     if motion is not None:
         pos = pos @ np.array(motion["R"]).T + np.array(motion["t"])
+    d = case.get("pdress")
+    if d and (d["slab"] is not None or d["sextra"]):
+        return _dressed(list(case["pels"]), pos, d["slab"] or "", d["sextra"])
     return mf.atoms_from(pos, case["pels"])
 
 
@@ -160,6 +181,10 @@ def build_replace(case, motion=None):
     pos = np.array(case["rpos"], float)
     if motion is not None:
         pos = pos @ np.array(motion["R"]).T + np.array(motion["t"])
+    d = case.get("pdress")
+    if d and (d["rlab"] is not None or d["rextra"]):
+        return _dressed(list(case["rels"]), pos, d["rlab"] or "", d["rextra"], charges=list(case["rcharges"]),
+                        groups=list(case["rgroups"]))
     with silenced():
         return Atoms(elements=list(case["rels"]), positions=pos, charges=list(case["rcharges"]), groups=list(case["rgroups"]))
 
